@@ -21,7 +21,7 @@ int main(int argc, char **argv){
         return 0;
     }
 #endif
-    auto set_lat = [&](const std::string &s){ auto v = vf::jints(s); if (v.size() == 5){ g_lat.p = (int) v[0]; g_lat.tp = (int) v[1]; g_lat.q = (int) v[2]; g_lat.tq = (int) v[3]; g_lat.u = (int) v[4]; } };
+    auto set_lat = [&](const std::string &s){ auto v = vf::jints(s); if (v.size() >= 5){ g_lat.p = (int) v[0]; g_lat.tp = (int) v[1]; g_lat.q = (int) v[2]; g_lat.tq = (int) v[3]; g_lat.u = (int) v[4]; } if (v.size() >= 7){ g_lat.k = (int) v[5]; g_lat.tk = (int) v[6]; } };
     if (A.has("--lat")) set_lat(A.get("--lat", ""));
     if (A.has("--trace")){ // print the operation trace of one schedule: --trace <scenario> [--choices 0,1,...] [--lat p,tp,q,tq,u]
         int si = (int) A.geti("--trace", 0); auto ch = vf::jints(A.get("--choices", "")); std::vector<int> pre(ch.begin(), ch.end());
@@ -47,11 +47,12 @@ int main(int argc, char **argv){
     // is a work unit, explored from the root with lbound deviations (quick 0 = the default schedule of every assignment, thorough 1)
     int lbound = (int) A.geti("--lbound", tier == "quick" ? 0 : 1); long nlat = 0;
     for(int si=SC_LAT0; si<SC_LAT0+NSC_LAT; si++){
-        if (tier == "quick" && si >= SC_LAT0 + 2) continue;
-        const int NI = 13; std::vector<Lat> L;
+        if (tier == "quick" && (si == SC_LAT0 + 2 || si == SC_LAT0 + 3 || si == SC_LAT0 + 6)) continue;
+        const int NI = (SC[si].fam == 5) ? 13 : (SC[si].fam == 6 ? 5 : 21); std::vector<Lat> L;
+        for(int k=1;k<=NI;k++) for(int tk : {1, 2}) for(int u : {0, 1}){ Lat l; l.k = k; l.tk = tk; l.u = u; L.push_back(l); } // F3: the k coarsest initial points are slow
         for(int u : {0, 1, 2, 4}){ Lat l; l.u = u; L.push_back(l); }
         for(int p=0;p<NI;p++) for(int tp : {1, 2, 3}) for(int u : {0, 1, 2, 4}){ Lat l; l.p = p; l.tp = tp; l.u = u; L.push_back(l); }
-        for(int p=0;p<NI;p++) for(int q=0;q<NI;q++) if (p != q) for(int u : {0, 2, 4}){ Lat l; l.p = p; l.tp = 1; l.q = q; l.tq = 2; l.u = u; L.push_back(l); }
+        if (SC[si].fam == 5) for(int p=0;p<NI;p++) for(int q=0;q<NI;q++) if (p != q) for(int u : {0, 2, 4}){ Lat l; l.p = p; l.tp = 1; l.q = q; l.tq = 2; l.u = u; L.push_back(l); }
         for(auto &l : L){ WU u; u.si = si; u.root = false; u.whole = true; u.lat = l; W.push_back(u); nlat++; }
     }
     // quick tier: the full bound on the scenarios with the richest protocol behaviour, bound-1 on the others (reported in the summary)
@@ -59,7 +60,7 @@ int main(int argc, char **argv){
     size_t done = vf::parallel_units(W.size(), (int) A.geti("--workers", 8), [&](size_t ui){
         const WU &u = W[ui]; vx::Stats S; std::map<std::string,long> oc; int si = u.si; g_nviol = 0; g_lat = u.lat;
         auto on_exec = [&](const vx::Result &x, const std::vector<int> &p){ check_exec(si, x, p, oc); };
-        if (u.whole) vx::explore(std::vector<int>(), 0, (si >= SC_LAT0 + 2) ? 0 : lbound, [&]{ return body(si); }, on_exec, S, 120.0); // the last two latency scenarios: default schedule only
+        if (u.whole) vx::explore(std::vector<int>(), 0, (si >= SC_LAT0 + 2 && si != SC_LAT0 + 4) ? 0 : lbound, [&]{ return body(si); }, on_exec, S, 120.0); // the last two latency scenarios: default schedule only
         else if (u.root){ vx::Result x = vx::run(std::vector<int>(), [&]{ return body(si); }, 120.0); S.execs++; S.points += (long) x.pts.size(); on_exec(x, std::vector<int>()); }
         else vx::explore(u.prefix, 1, sbound(si), [&]{ return body(si); }, on_exec, S, 120.0);
         for(auto &p : oc) vf::emit(vf::J().s("t","outcome").s("key", std::string(SC[si].name) + " | " + p.first).i("n", p.second));
